@@ -185,17 +185,22 @@ class SymtableCodeGen(AbstractCodeGen):
             self._postponedSyms[symbol] = (parents, symProps)
 
     def regPostponedSyms(self):
-        regedSyms = []
-        for sym, val in self._postponedSyms.items():
-            parents, symProps = val
+        # registering one postponed symbol may unblock another one
+        while True:
+            regedSyms = []
+            for sym, val in self._postponedSyms.items():
+                parents, symProps = val
 
-            if self.allParentsExists(parents):
-                self._out[sym] = symProps
-                self._symsOrder.append(sym)
-                regedSyms.append(sym)
+                if self.allParentsExists(parents):
+                    self._out[sym] = symProps
+                    self._symsOrder.append(sym)
+                    regedSyms.append(sym)
 
-        for sym in regedSyms:
-            self._postponedSyms.pop(sym)
+            for sym in regedSyms:
+                self._postponedSyms.pop(sym)
+
+            if not regedSyms:
+                break
 
         # Clause handlers
 
